@@ -100,7 +100,12 @@ def scenario_case(ctx, sc):
     for nme in o.names:
         data = o.after.get(nme)
         if data and data[2] is not None and b'#scribble' in data[2]:
-            ctx.violation('test-modified-candidate-committed', f'{nme}: the test appended to the candidate in its own directory, exited 0, and the modified candidate was committed', rep)
+            if sc.get('scribble') == 'all':
+                ctx.violation('test-modified-candidate-committed', f'{nme}: the test appended to the candidate in its own directory, exited 0, and the modified candidate was committed', rep)
+            else:
+                # this test only writes to the OTHER test cases in its directory, never to the candidate
+                ctx.violation('sibling-write-committed', f'{nme}: the test appended to its private copy of {nme} while another test case was being reduced, and the text '
+                              f'reached the user\'s {nme}', rep)
     for (nme, cwd) in (o.scribble_leaks or [])[:1]:
         ctx.violation('test-write-reached-user-file', f'the test appended to {nme} inside its own directory {os.path.basename(cwd)} and the file {nme} in the working directory changed with it', rep)
     for (nme, cwd) in (o.links_in_test_dir or [])[:1]:
